@@ -888,5 +888,7 @@ def run(prog, rep, tier):
     check_apportion(prog, rep)
     check_bins(prog, rep)
     check_bounds(prog, rep)
-    check_builders(prog, rep)
-    check_reductions(prog, rep)
+    from sa.report import second_reading
+    fs = [f_ for m_ in prog.modules.values() if any(m_.name.startswith(p_) for p_ in ('pybrops.breed.prot.sel.prob',)) for f_ in list(m_.functions.values()) + [g_ for c_ in m_.classes.values() for g_ in c_.methods.values()]]
+    second_reading(rep, fs, lambda r_: check_builders(prog, r_))
+    second_reading(rep, fs, lambda r_: check_reductions(prog, r_))
